@@ -78,8 +78,11 @@ func (m *impl) Exec(line string) string {
 		return m.cur.probe.ask(t + " " + op + " " + ws[3])
 	case op == "parse" && len(ws) == 4:
 		return m.cur.probe.ask(t + " parse " + ws[3])
-	case (op == "trait" || op == "marshal" || op == "rt") && len(ws) == 5:
+	case (op == "trait" || op == "marshal" || op == "rt" || op == "rtf") && len(ws) == 5:
 		if op != "trait" && ws[3] != "json" && ws[3] != "yaml" && ws[3] != "text" {
+			return "bad-op"
+		}
+		if op == "rtf" && ws[3] == "text" {
 			return "bad-op"
 		}
 		if ws[4] != "all" {
